@@ -30,7 +30,8 @@ S = Suite(
          "plotting.extract_percentile_contour against brute-force set-form oracles",
     bound="fields of 1..120 cells (1-D, 2-D, 3-D; C-ordered and transposed views): small-integer "
           "valued with many ties and zeros, sparse, and real-valued random; base fields: random "
-          "tie-free, tied, integer-typed, the five built-ins on grids with the tower on/off a node "
+          "tie-free, tied, integer-typed (int8..int64, uint8..uint64, bool; permutations, class "
+          "maps with zeros, values at the ends of the dtype range), the five built-ins on grids with the tower on/off a node "
           "and 8..16 wind directions; p in (0,1] incl. exact hits and p=1; 2-D/3-D inputs with "
           "1-D/2-D/3-D coordinates; total = 0 and negative f not examined",
     rule="set-form interval per cell (exact for integer-valued f, 1e-12*total otherwise); exact "
@@ -135,22 +136,56 @@ def set_form(seed, n, ndim, layout, ftype, gtype):
 
 
 @S.kind("integer-g")
-def integer_g(seed, n, dtype):
-    """'any base field g': an integer-typed g (a rank, a class index) must still give the sums."""
+def integer_g(seed, n, dtype, gkind="perm"):
+    """'any base field g': an integer-typed g (a rank, a class map, raw counts, a mask) must still
+    give the sums, whatever the integer dtype - signed, unsigned or bool.
+    gkind: perm     a permutation of 0..n-1 (tie-free, contains the value 0)
+           classes  few classes 0..3 (ties; zeros are the lowest class)
+           extremes values at both ends of the dtype's range and around zero (<= 32 bit dtypes,
+                    so that the oracle's float copy of g is exact)
+           mask     0/1 (bool or integer)"""
     import numpy as np
     from bldfm.utils import get_source_area
     rs = np.random.RandomState(seed)
     f = rs.randint(1, 8, n) / 8.0                 # exact binary fractions
-    g = rs.permutation(n).astype(dtype)
+    dt = np.dtype(dtype)
+    if gkind == "perm":
+        vals = rs.permutation(n)
+    elif gkind == "classes":
+        vals = rs.randint(0, 4, n)
+    elif gkind == "mask" or dt.kind == "b":
+        vals = (rs.rand(n) < 0.5).astype(int)
+    elif gkind == "extremes":
+        ii = np.iinfo(dt)
+        if ii.bits > 32:
+            raise AssertionError("generator: 'extremes' is for dtypes of at most 32 bits")
+        pool = sorted(set([ii.min, ii.min + 1, ii.max - 1, ii.max, 0, 1, 2] +
+                          ([-1, -2] if ii.min < 0 else [ii.max // 2])))
+        vals = np.array([pool[k] for k in rs.randint(0, len(pool), n)], dtype=object)
+    else:
+        raise ValueError(gkind)
+    if dt.kind != "b" and (int(min(vals)) < np.iinfo(dt).min or int(max(vals)) > np.iinfo(dt).max):
+        raise AssertionError("generator: values do not fit %s" % dtype)
+    g = np.array([int(v) for v in vals]).astype(dt) if dt.kind != "b" else np.array(
+        [bool(v) for v in vals])
     shape = _shape(n, 2, "C")
     f, g = f.reshape(shape), g.reshape(shape)
+    g0 = g.copy()
     out = get_source_area(f, g)
-    bad = _check_set_form(out, f, g, True, "integer-typed g (%s)" % dtype)
+    if not np.array_equal(g, g0) or g.dtype != g0.dtype:
+        return Verdict(False, "get_source_area changed its argument g", key="integer-g-mutated")
+    bad = _check_set_form(out, f, g, True, "integer-typed g (%s, %s)" % (dtype, gkind))
     if bad:
-        bad.key = "integer-g-truncates-sums"
-        bad.detail += "; out dtype %s" % np.asarray(out).dtype
+        # the same values as float64 are the reference behaviour: tells a dtype-dependent
+        # ordering from a wrong sum
+        ref = _check_set_form(get_source_area(f, g.astype(float)), f, g, True, "float copy of g")
+        bad.key = ("integer-g-" + ("unsigned" if dt.kind == "u" else "bool" if dt.kind == "b"
+                                   else "signed") + "-order") if ref is None else \
+            "integer-g-truncates-sums"
+        bad.detail += "; out dtype %s; float64 copy of g %s" % (
+            np.asarray(out).dtype, "is right" if ref is None else "fails too")
         return bad
-    return Verdict(True, "n=%d" % n)
+    return Verdict(True, "n=%d %s %s" % (n, dtype, gkind), nontrivial=n > 1)
 
 
 @S.kind("transform-invariance")
@@ -433,6 +468,20 @@ def generate(tier, rng):
         for n in (2, 6, 24, 60):
             for dtype in ("int64", "int32"):
                 yield "integer-g", dict(seed=rng.randrange(2 ** 31), n=n, dtype=dtype)
+            # every integer dtype class: unsigned (class maps, counts, image-like data), narrow
+            # signed, bool masks; with zeros, ties and the ends of the dtype's range
+            for dtype in ("uint8", "uint16", "uint32", "uint64", "int8", "int16", "int64", "bool"):
+                if dtype == "bool":
+                    gkinds = ["mask"]
+                else:
+                    gkinds = ["perm", "classes"]
+                    if dtype not in ("uint64", "int64"):
+                        gkinds.append("extremes")
+                    if dtype in ("uint8", "int8"):
+                        gkinds.append("mask")
+                for gkind in gkinds:
+                    yield "integer-g", dict(seed=rng.randrange(2 ** 31), n=n, dtype=dtype,
+                                            gkind=gkind)
             for ftype in ("int", "sparse", "real"):
                 for tr in ("affine", "exp", "cube", "atan", "rank"):
                     yield "transform-invariance", dict(seed=rng.randrange(2 ** 31), n=n,
